@@ -492,6 +492,23 @@ pub fn run(sc: &Value) -> Vec<Value> {
             push(m);
         }
     }
+    // ---- the method table: every 16-bit code through from_u16 / to_u16, and the list of methods the build declares supported
+    if sc.get("method_table").and_then(|x| x.as_bool()).unwrap_or(false) {
+        #[allow(deprecated)]
+        let bad: Vec<u32> = (0u32..65536).filter(|c| zip::CompressionMethod::from_u16(*c as u16).to_u16() as u32 != *c).take(50).collect();
+        #[allow(deprecated)]
+        let mut sup: Vec<u32> = zip::SUPPORTED_COMPRESSION_METHODS.iter().map(|m| m.to_u16() as u32).collect();
+        sup.sort();
+        #[allow(deprecated)]
+        let named: Vec<u32> = [zip::CompressionMethod::Stored, zip::CompressionMethod::Deflated, zip::CompressionMethod::Bzip2, zip::CompressionMethod::Zstd]
+            .iter().map(|m| m.to_u16() as u32).collect();
+        let mut m = Map::new();
+        m.insert("ev".into(), json!("RMethodTable"));
+        m.insert("bad".into(), json!(bad));
+        m.insert("supported".into(), json!(sup));
+        m.insert("named".into(), json!(named));
+        push(m);
+    }
     // ---- sweeps: the same archive behind every prepended length of a range / in front of every trailing length of a range.
     // One compact event per length: result class, reported offset and entry count, and a digest of (name, size, content CRC or
     // open error class) of every entry, next to the digest of the unmodified archive (whose entries the events above describe)
